@@ -347,7 +347,15 @@ fn intersect_pair(a: usize, b: usize, program: &mut Program) -> usize {
             ) else {
                 return never;
             };
-            if i1.name != i2.name || i1.fields.len() != i2.fields.len() {
+            // Tuples differing in name, arity or any field label share no value.
+            if i1.name != i2.name
+                || i1.fields.len() != i2.fields.len()
+                || i1
+                    .fields
+                    .iter()
+                    .zip(&i2.fields)
+                    .any(|((l1, _), (l2, _))| l1 != l2)
+            {
                 return never;
             }
             let mut fields = Vec::with_capacity(i1.fields.len());
@@ -457,7 +465,17 @@ fn subtract_one(a: usize, b: usize, program: &mut Program) -> Vec<usize> {
             ) else {
                 return vec![a];
             };
-            if i1.name != i2.name || i1.fields.len() != i2.fields.len() {
+            // Tuples differing in name, arity or any field label share no value: nothing to
+            // subtract. (The `types_overlap` shortcut above catches this for cycle-free types
+            // only.)
+            if i1.name != i2.name
+                || i1.fields.len() != i2.fields.len()
+                || i1
+                    .fields
+                    .iter()
+                    .zip(&i2.fields)
+                    .any(|((l1, _), (l2, _))| l1 != l2)
+            {
                 return vec![a];
             }
             // `[A] ∖ [b]` = union over i of `[A₀, …, Aᵢ∖bᵢ, …, Aₙ]`.
